@@ -183,7 +183,7 @@ func (m *monC14) BeforeTx(w *World, tx *TxCtx) {
 
 // haltCause adds the discriminating circumstance of a halt to its class.
 func haltCause(w *World) string {
-	if w.M != nil && w.M.Ent.Denom != w.T.Knobs.Ent.Denom {
+	if w.M != nil && (w.M.Ent.Denom != w.T.Knobs.Ent.Denom || w.M.Ent.DenomChanged) {
 		return "/enterprise-denom-changed-by-governance"
 	}
 	if govBelowDeposits(w) || govSpendingProposal(w) {
